@@ -48,7 +48,21 @@ pub fn make_seed(i: u64, rng: &mut Rng) -> Option<Seed> {
     // then be re-aligned with the opened position by scanning the nonce (see `recommitted` below)
     let single = i % 6 == 5;
     let q = if single { 1 } else { rng.range(3, 7).min(shape.n() * options.blowup_factor() - 1) };
-    options = ProofOptions::new(q, options.blowup_factor(), if i % 5 == 0 && !single { 3 } else { 0 }, ext, options.to_fri_options().folding_factor(), options.to_fri_options().remainder_max_degree());
+    // every sixth seed asks for two queries and a remainder of 8 or 16 coefficients where the schedule allows it:
+    // more remainder coefficients than final query positions leave room for position-aware substitutions
+    let few = i % 6 == 4;
+    let q = if few { 2 } else { q };
+    let mut rem_deg = options.to_fri_options().remainder_max_degree();
+    if few || (single && i % 12 == 11) {
+        let lde = shape.n() * options.blowup_factor();
+        for cand in [15usize, 7] {
+            if crate::frih::schedule_well_formed(lde, &winter_fri::FriOptions::new(options.blowup_factor(), options.to_fri_options().folding_factor(), cand)) {
+                rem_deg = cand;
+                break;
+            }
+        }
+    }
+    options = ProofOptions::new(q, options.blowup_factor(), if i % 5 == 0 && !single { 3 } else { 0 }, ext, options.to_fri_options().folding_factor(), rem_deg);
     let (cols, values) = stark::gen_trace(fd, &shape, rng, TraceKind::Random);
     let inst = Instance { fd, hs, shape, options, cols, values };
     let proof = match stark::prove(&inst, false) {
@@ -106,6 +120,7 @@ pub fn all_mutants(seed: &Seed, rng: &mut Rng, quick: bool) -> Vec<Mutant> {
     }
     out.extend(recommitted(seed, quick));
     out.extend(rescheduled(seed));
+    out.extend(oversized_tables(seed));
     // structurally valid proofs with inconsistent components (edited through the public fields)
     let mut sem: Vec<(&str, Proof)> = Vec::new();
     for nq in [0u8, 1, 2, 254, 255] {
@@ -236,6 +251,55 @@ pub fn rescheduled(seed: &Seed) -> Vec<Mutant> {
                     bad
                 };
                 out.push(Mutant { class: format!("fri-schedule-relabelled:{}:{}", if ill { "layer-smaller-than-folding-factor" } else { "well-formed-schedule" }, ["own-records", "minimal-records-1-row", "minimal-records-2-rows"][variant]), bytes: v });
+            }
+        }
+    }
+    out
+}
+
+/// opened tables blown up to 255 / 256 / 257 / 1024 whole rows of valid elements (the proof's own rows repeated)
+/// with a consistent length prefix: row counts beyond what the one-byte query count can express
+pub fn oversized_tables(seed: &Seed) -> Vec<Mutant> {
+    let mut out = Vec::new();
+    let nq = seed.proof.num_unique_queries as usize;
+    if nq == 0 {
+        return out;
+    }
+    let mut blobs: Vec<(String, usize, usize, usize)> = Vec::new(); // (name, offset, length, rows)
+    for f in &seed.map.fields {
+        if f.kind == mutate::Kind::Blob && f.name.ends_with(".values") && f.len > 0 {
+            if f.name.starts_with("fri.layer") {
+                // a FRI layer opens one row per folded position: the row size is folding factor x element size
+                let modulus = seed.map.fields.iter().find(|g| g.name == "context.field_modulus").map(|g| g.len).unwrap_or(0);
+                let row = seed.inst.options.to_fri_options().folding_factor() * modulus * seed.inst.options.field_extension().degree() as usize;
+                if row > 0 && f.len % row == 0 {
+                    blobs.push((f.name.clone(), f.off, f.len, f.len / row));
+                }
+            } else if f.len % nq == 0 {
+                blobs.push((f.name.clone(), f.off, f.len, nq));
+            }
+        }
+    }
+    for (name, off, len, rows) in blobs {
+        let row = len / rows;
+        for target in [255usize, 256, 257, 1024] {
+            if target == rows || target * row > 1 << 20 {
+                continue;
+            }
+            let mut body = Vec::with_capacity(target * row);
+            for r in 0..target {
+                let k = r % rows;
+                body.extend_from_slice(&seed.bytes[off + k * row..off + (k + 1) * row]);
+            }
+            let mut v = seed.bytes[..off - 4].to_vec();
+            v.extend_from_slice(&(body.len() as u32).to_le_bytes());
+            v.extend_from_slice(&body);
+            v.extend_from_slice(&seed.bytes[off + len..]);
+            out.push(Mutant { class: format!("table-blown-up-to-{target}-rows:{}", mutate::generic(&name)), bytes: v.clone() });
+            // the same with the one-byte query count set to what fits of the new row count
+            if let Some(f) = seed.map.fields.iter().find(|f| f.name == "num_unique_queries") {
+                v[f.off] = target.min(255) as u8;
+                out.push(Mutant { class: format!("table-blown-up-to-{target}-rows+count:{}", mutate::generic(&name)), bytes: v });
             }
         }
     }
